@@ -12,8 +12,8 @@ PROP = {
     'evals': C10_EVALS,
     # nested jails (known finding F10a) and scheme-case spellings (finding F10b) are generated only when
     # known_findings.json carries the entries F10a / F10b; then set 'nested': 1 / 'schemecase': 1 here.
-    'extra': {'quick': {'episodes': 110, 'servers': 2, 'nested': 0, 'schemecase': 0},
-              'thorough': {'episodes': 1500, 'servers': 6, 'nested': 0, 'schemecase': 0}},
+    'extra': {'quick': {'episodes': 110, 'servers': 2, 'nested': 1, 'schemecase': 1},
+              'thorough': {'episodes': 1500, 'servers': 6, 'nested': 1, 'schemecase': 1}},
     'replay_header': C10_HEADER,
     'replay_footer': '\n'.join('Eval vm_compute in (failing %s base_index cases).' % e for e in C10_EVALS),
     'stats_keys': ['episodes', 'servers', 'deltas', 'deltas_accepted', 'nested_jails_generated', 'scheme_case_generated'],
